@@ -113,6 +113,38 @@ def executed(d):
         and "status" in d
 
 
+class Raw:
+    """the bytes every request was handed to its executor as (`Logix.request( data )`: data.input on entry)"""
+    seen = {}
+    keep = []
+    installed = False
+
+
+def install_raw_capture():
+    if Raw.installed:
+        return
+    from cpppo.server.enip import logix
+    orig = logix.Logix.request
+
+    def request(self, data, addr=None):
+        try:
+            if id(data) not in Raw.seen and "input" in data:
+                Raw.seen[id(data)] = bytes(bytearray(data["input"]))
+                Raw.keep.append(data)
+        except Exception:
+            pass
+        return orig(self, data, addr=addr)
+    logix.Logix.request = request
+    Raw.installed = True
+
+
+def with_raw(r, d):
+    raw = Raw.seen.get(id(d))
+    if raw is not None:
+        r["_raw"] = raw.hex()
+    return r
+
+
 def code_parsed(data):
     """-> (cp request or None, [(member request, member reply bytes)], CIP reply bytes or None, effect_only)"""
     req = find_request(data)
@@ -134,7 +166,7 @@ def code_parsed(data):
                 if r is None:
                     flags["dropped"] = True   # not one of the modelled services in complete form: cannot be a write
                     continue
-                ms.append((r, bytes(m["input"])))
+                ms.append((with_raw(r, m), bytes(m["input"])))
         try:
             walk(req, 0)
         except Exception:
@@ -150,6 +182,7 @@ def code_parsed(data):
     r = w.parsed_request(req)
     if r is None:
         return None, [], None, False
+    with_raw(r, req)
     return r, [(r, reply)], reply, False
 
 
@@ -169,7 +202,13 @@ class Session:
         if real:
             e = data["request"].get("enip", {})
             Counter.seq += 1
+            size = kwds.get("size")
+            try:
+                plen = len(data["request"]["enip"].get("input", b""))
+            except Exception:
+                plen = 0
             rec = {"seq": Counter.seq, "dg": getattr(self.conn, "cur", None), "peer": addr,
+                   "oversize": size is not None and plen > int(size),
                    "hdr": (e.get("command"), e.get("length"), e.get("session_handle")),
                    "nsent": len(self.conn.sent) if self.conn is not None else 0, "steps0": Counter.count}
             self.calls.append(rec)
@@ -198,6 +237,9 @@ class Session:
 
 
 def reset_globals(dev):
+    install_raw_capture()
+    Raw.seen = {}
+    Raw.keep = []
     from cpppo.server.enip import main as emain
     dev.device.Connection_Manager.forwards = {}
     from cpppo.server.enip import ucmm
@@ -205,7 +247,7 @@ def reset_globals(dev):
     emain.connections.clear()
 
 
-def run_server(dev, chunks, addr, gate=None, gate_at=None, budget=None, join=120):
+def run_server(dev, chunks, addr, gate=None, gate_at=None, budget=None, join=120, size=None):
     """one connection through the real enip_srv on a server_thread -> (Session, thread, conn)"""
     import cpppo
     from cpppo.server import network
@@ -215,8 +257,10 @@ def run_server(dev, chunks, addr, gate=None, gate_at=None, budget=None, join=120
     conn = FakeConn(chunks, gate, gate_at)
     sess.conn = conn
     ctl = cpppo.dotdict(latency=0.001, done=False, disable=False, timeout=1)
-    th = network.server_thread(target=emain.enip_srv, args=(conn, addr),
-                               kwargs=dict(enip_process=sess.process, server={"control": ctl}))
+    kw = dict(enip_process=sess.process, server={"control": ctl})
+    if size is not None:
+        kw["size"] = size                  # enip.main --size: forwarded to enip_process like every other keyword
+    th = network.server_thread(target=emain.enip_srv, args=(conn, addr), kwargs=kw)
     th.daemon = True
     th.start()
     return sess, th, conn, ctl
